@@ -649,10 +649,14 @@ impl Drop for OsOpaqueIpcChannel {
     fn drop(&mut self) {
         // Make sure we don't leak!
         //
-        // The `OsOpaqueIpcChannel` objects should always be used,
-        // i.e. converted with `to_sender()` or `to_receiver()` --
-        // so the value should already be unset before the object gets dropped.
-        debug_assert!(self.fd == -1);
+        // The `OsOpaqueIpcChannel` objects are normally used,
+        // i.e. converted with `to_sender()` or `to_receiver()` -- but a message may be dropped
+        // without being decoded, fail to decode, or carry channels its type never refers to.
+        if self.fd >= 0 {
+            unsafe {
+                libc::close(self.fd);
+            }
+        }
     }
 }
 
